@@ -11,9 +11,15 @@
    node as read through the API at that moment.                                  *)
 EXTENDS Entries, SequencesExt, Json, IOUtils
 
+\* extension X06 (Gossip.tla): a member of the document's gossip topic broadcast bytes that are no Op.  With
+\* GarbageTolerated the nodes must still converge; without it (what receive_loop does: the error ends the loop and the
+\* topic is forgotten) a history with such a message may stay diverged - and only such a history
+CONSTANT GarbageTolerated
+
 Rec == ndJsonDeserialize(IOEnv.TRACE)
-VARIABLES l, written     \* written: entries whose write was acknowledged by some node
-vars == <<l, written>>
+VARIABLES l, written,    \* written: entries whose write was acknowledged by some node
+          garbage       \* an undecodable gossip message was broadcast in this history
+vars == <<l, written, garbage>>
 
 Sets(r) == [n \in 1..Len(r.sts) |-> ToSet(r.sts[n])]
 \* nobody shows an entry that was not written
@@ -21,24 +27,27 @@ OnlyWritten(r, w) == \A n \in 1..Len(r.sts) : ToSet(r.sts[n]) \subseteq w
 \* every node's contents are free of superseded entries
 Normal(r) == \A n \in 1..Len(r.sts) : ToSet(r.sts[n]) = Kept(ToSet(r.sts[n]))
 
-Init == l = 1 /\ written = {}
+Init == l = 1 /\ written = {} /\ garbage = FALSE
 Step ==
   /\ l <= Len(Rec)
   /\ LET r == Rec[l] IN
-       CASE r.ev = "Reset" -> written' = {}
-         [] r.ev = "Joined" -> r.res = "ok" /\ UNCHANGED written          \* ticket imported, sync started
+       CASE r.ev = "Reset" -> written' = {} /\ garbage' = FALSE
+         [] r.ev = "Joined" -> r.res = "ok" /\ UNCHANGED <<written, garbage>>          \* ticket imported, sync started
+         [] r.ev = "Garbage" -> garbage' = r.sent /\ UNCHANGED written
+         [] r.ev = "ExtraSubscription" -> UNCHANGED <<written, garbage>>   \* control: a second subscription, nothing sent
          [] r.ev = "Write" ->
               \* a local write through the API with the node's own clock; refused only if a newer entry is already held
               LET w2 == IF r.res = "ok" THEN written \cup {r.e} ELSE written IN
               /\ r.res \in {"ok", "err"}
               /\ r.res = "err" => \E f \in written : f.a = r.e.a /\ KeyPrefix(f.k, r.e.k) /\ ValLeq(r.e, f)
               /\ OnlyWritten(r, w2) /\ Normal(r)
-              /\ written' = w2
+              /\ written' = w2 /\ UNCHANGED garbage
          [] r.ev = "Quiet" ->
               \* the driver waited until all nodes showed the same contents for a while (r.converged) or gave up
-              /\ r.converged
-              /\ \A n \in 1..Len(r.sts) : ToSet(r.sts[n]) = Kept(written)
-              /\ UNCHANGED written
+              /\ r.converged \/ (garbage /\ ~GarbageTolerated)
+              /\ r.converged => \A n \in 1..Len(r.sts) : ToSet(r.sts[n]) = Kept(written)
+              /\ OnlyWritten(r, written) /\ Normal(r)
+              /\ UNCHANGED <<written, garbage>>
          [] OTHER -> FALSE
   /\ l' = l + 1
 Spec == Init /\ [][Step]_vars
